@@ -625,10 +625,12 @@ type disCase struct {
 	Samples [][]int // stacks of symbol indexes, leaf first
 	Vals    []int64
 	Web     bool
+	// SameName: the first two symbols carry one name (two static functions) and equally many samples
+	SameName bool
 }
 
 func genDis(t *rapid.T) *disCase {
-	c := &disCase{NSym: rapid.IntRange(2, 5).Draw(t, "nsym"), Web: rapid.Bool().Draw(t, "web")}
+	c := &disCase{NSym: rapid.IntRange(2, 5).Draw(t, "nsym"), Web: rapid.Bool().Draw(t, "web"), SameName: rapid.IntRange(0, 2).Draw(t, "samename") == 0}
 	n := rapid.IntRange(2, 7).Draw(t, "nsamples")
 	for i := 0; i < n; i++ {
 		depth := rapid.IntRange(1, 3).Draw(t, "depth")
@@ -642,12 +644,25 @@ func genDis(t *rapid.T) *disCase {
 	return c
 }
 
-type disObj struct{ n int }
+type disObj struct {
+	n    int
+	same bool
+}
 
-type disFile struct{ n int }
+func disName(i int, same bool) string {
+	if same && i < 2 {
+		return "symtwin"
+	}
+	return fmt.Sprintf("sym%d", i)
+}
+
+type disFile struct {
+	n    int
+	same bool
+}
 
 func (o disObj) Open(file string, start, limit, offset uint64, rs string) (plugin.ObjFile, error) {
-	return disFile{o.n}, nil
+	return disFile{o.n, o.same}, nil
 }
 
 func (o disObj) Disasm(file string, start, end uint64, intel bool) ([]plugin.Inst, error) {
@@ -667,7 +682,7 @@ func (f disFile) Close() error                              { return nil }
 func (f disFile) Symbols(r *regexp.Regexp, addr uint64) ([]*plugin.Sym, error) {
 	var out []*plugin.Sym
 	for i := 0; i < f.n; i++ {
-		name := fmt.Sprintf("sym%d", i)
+		name := disName(i, f.same)
 		start := uint64(0x400000 + i*0x100)
 		if (r == nil || r.MatchString(name)) && (addr == 0 || (addr >= start && addr < start+0x20)) {
 			out = append(out, &plugin.Sym{Name: []string{name}, File: "/bin/app", Start: start, End: start + 0x1f})
@@ -681,7 +696,7 @@ func checkDis(c *disCase, o *vk.Obs) []string {
 	m := &profile.Mapping{ID: 1, Start: 0x400000, Limit: 0x500000, File: "/bin/app"}
 	p := &profile.Profile{SampleType: []*profile.ValueType{{Type: "samples", Unit: "count"}}, PeriodType: &profile.ValueType{Type: "cpu", Unit: "nanoseconds"}, Period: 1, Mapping: []*profile.Mapping{m}}
 	for i := 0; i < c.NSym; i++ {
-		f := &profile.Function{ID: uint64(i + 1), Name: fmt.Sprintf("sym%d", i), SystemName: fmt.Sprintf("sym%d", i), Filename: "s.go"}
+		f := &profile.Function{ID: uint64(i + 1), Name: disName(i, c.SameName), SystemName: disName(i, c.SameName), Filename: "s.go"}
 		l := &profile.Location{ID: uint64(i + 1), Mapping: m, Address: uint64(0x400000 + i*0x100 + 8), Line: []profile.Line{{Function: f, Line: 3}}}
 		p.Function = append(p.Function, f)
 		p.Location = append(p.Location, l)
@@ -693,8 +708,19 @@ func checkDis(c *disCase, o *vk.Obs) []string {
 		}
 		p.Sample = append(p.Sample, s)
 	}
+	if c.SameName {
+		// equal flat sums for the two namesakes: drop what the drawn samples gave them, add one sample each
+		var keep []*profile.Sample
+		for _, sm := range p.Sample {
+			if sm.Location[0] != p.Location[0] && sm.Location[0] != p.Location[1] {
+				keep = append(keep, sm)
+			}
+		}
+		p.Sample = append(keep, &profile.Sample{Value: []int64{2}, Location: []*profile.Location{p.Location[0]}}, &profile.Sample{Value: []int64{2}, Location: []*profile.Location{p.Location[1]}})
+		o.Label("same-named-symbols")
+	}
 	o.NonTrivial = true
-	obj := disObj{c.NSym}
+	obj := disObj{c.NSym, c.SameName}
 	var first string
 	for k := 0; k < K; k++ {
 		var out string
